@@ -43,10 +43,32 @@ pub(crate) fn named(attr: &StructAttr, ts_name: Expr, fields: &FieldsNamed) -> R
         (0, 0) => quote!("{  }".to_owned()),
         (_, 0) => quote!(format!("{{ {} }}", #fields)),
         (0, 1) => quote! {{
-            if #flattened.starts_with('(') && #flattened.ends_with(')') {
-                #flattened[1..#flattened.len() - 1].trim().to_owned()
+            let flattened = #flattened;
+            // drop the outer parentheses only if they enclose the whole type: in
+            // `(A | B) & (C | D)` the first `(` does not belong to the last `)`
+            let mut depth = 0usize;
+            let mut in_string = false;
+            let mut escaped = false;
+            let mut enclosed = flattened.starts_with('(') && flattened.ends_with(')');
+            for (i, c) in flattened.char_indices() {
+                match c {
+                    _ if escaped => escaped = false,
+                    '\\' if in_string => escaped = true,
+                    '"' => in_string = !in_string,
+                    '(' if !in_string => depth += 1,
+                    ')' if !in_string => {
+                        depth = depth.saturating_sub(1);
+                        if depth == 0 && i + 1 < flattened.len() {
+                            enclosed = false;
+                        }
+                    }
+                    _ => (),
+                }
+            }
+            if enclosed {
+                flattened[1..flattened.len() - 1].trim().to_owned()
             } else {
-                #flattened.trim().to_owned()
+                flattened.trim().to_owned()
             }
         }},
         (0, _) => quote!(#flattened),
